@@ -62,6 +62,14 @@ Theorem C03_a_jk_table : forall (erfR : R -> R) (J : nat) (groups : list (list R
 Proof. exact a_jk_calc_spec. Qed.
 Print Assumptions C03_a_jk_table.
 
+(* a long-lived service after change_shg_mgr = a freshly built one (any number system) *)
+Theorem C03_change_shg_mgr_fresh : forall (T : Type) (N : Num T) (J : nat)
+    (W0 : list (list T)) (changes : list (list (list T))) (W : list (list T))
+    (Ycols : list (list (list T))),
+  a_jk_after N J W0 (changes ++ [W]) Ycols = a_jk_calc N J (combine W Ycols).
+Proof. exact @a_jk_after_fresh. Qed.
+Print Assumptions C03_change_shg_mgr_fresh.
+
 (* ---------------------------------------------------------------- stacked ratio *)
 Theorem C03_stacked_checked : forall (erfR : R -> R) (a_k : list R) (n_sel : nat)
     (vals : list (nat * nat * R)) (Ri : list R),
